@@ -27,7 +27,8 @@ fn valid_request(id: u64, rng: &mut StdRng, resp_len: u32) -> (Vec<u8>, Script) 
     let script = Script { delay_us: rng.gen_range(0..3) * 10_000, resp_len, status: 200, nhdr: 1, seed: rng.gen::<u64>() | 1 };
     let mut headers = vec![(H_ID.to_owned(), id.to_string()), (H_SCRIPT.to_owned(), script.encode())];
     if rng.gen_bool(0.3) {
-        headers.push(("timeout".into(), ["0x", "-5", "99999999999999999999999", "abc", ""].choose(rng).unwrap().to_string()));
+        // deadlines a hostile peer may announce: unparsable, absurdly small, huge
+        headers.push(("timeout".into(), ["0x", "-5", "99999999999999999999999", "abc", "", "0", "1", "50", "1000", "18446744073709551615", "100000000000"].choose(rng).unwrap().to_string()));
     }
     let route = if rng.gen_bool(0.3) { ODD_ROUTES.choose(rng).unwrap().to_string() } else { "/probe".to_owned() };
     let body = gen_bytes(id, rng.gen_range(0..3000));
@@ -256,6 +257,17 @@ pub fn scenario(idx: usize, seed: u64, steps: usize) -> ScenarioResult {
                     tokio::time::sleep(lat * rng.gen_range(0..4)).await;
                 }
                 let _ = rx.stop(3u32.into());
+            } else if kind < 72 {
+                act = "trickle-past-own-deadline";
+                let script = Script { delay_us: 0, resp_len: 10, status: 200, nhdr: 0, seed: 3 };
+                let headers = vec![(H_ID.to_owned(), id.to_string()), (H_SCRIPT.to_owned(), script.encode()), ("timeout".into(), (rng.gen_range(1..5) * 1_000_000u64).to_string())];
+                let b = refwire::encode_request("/slow", &headers, &gen_bytes(id, 200));
+                let cut = rng.gen_range(1..b.len());
+                let _ = tx.write_all(&b[..cut]).await;
+                tokio::time::sleep(Duration::from_millis(rng.gen_range(5..30))).await;
+                let _ = tx.write_all(&b[cut..]).await;
+                let _ = tx.finish();
+                alog.finished_strings.push(b);
             } else if kind < 75 {
                 act = "open-and-never-write";
                 held_open.push((tx, rx));
@@ -321,6 +333,7 @@ pub fn scenario(idx: usize, seed: u64, steps: usize) -> ScenarioResult {
                 let _ = tx.finish();
                 alog.finished_strings.push(b.clone());
                 let parsed = refwire::parse_request(&b, usize::MAX, false, false).unwrap();
+                let short_deadline = parsed.headers.iter().any(|(k, v)| k == "timeout" && v.parse::<u64>().map(|n| n < 10_000_000_000).unwrap_or(false));
                 let timeout_hdr_zero = false;
                 let _ = timeout_hdr_zero;
                 let held = held_open.len();
@@ -329,7 +342,7 @@ pub fn scenario(idx: usize, seed: u64, steps: usize) -> ScenarioResult {
                 let probe_wait = if loss > 0.0 { 60_000_000 } else { honest_bound.max(2_000_000) };
                 let resp = tokio::time::timeout(Duration::from_micros(probe_wait), rx.read_to_end(1 << 22)).await;
                 let fits = max_frame.map(|m| parsed.body.len() <= m && refwire::request_header(&parsed.route, &parsed.headers).len() <= m && (resp_len as usize) <= m).unwrap_or(true);
-                if held < 50 && conn.close_reason().is_none() && fits {
+                if held < 50 && conn.close_reason().is_none() && fits && !short_deadline {
                     match resp {
                         Ok(Ok(bytes)) => match refwire::parse_response(&bytes, usize::MAX, false, false) {
                             Ok(r) => {
@@ -492,6 +505,6 @@ pub fn run(ctx: &Ctx) -> i32 {
         extra: Default::default(),
         exhaustive: None,
         min_signatures: 6,
-        required_counters: vec!["adversary_actions", "well_formed_probes_ok", "honest_rpcs_during_attack", "requests_from_adversary_served", "adv:truncated+finish", "adv:length-prefix", "adv:stop-response", "adv:abrupt-close-with-inflight", "adv:stream-flood"],
+        required_counters: vec!["adversary_actions", "well_formed_probes_ok", "honest_rpcs_during_attack", "requests_from_adversary_served", "adv:trickle-past-own-deadline", "adv:truncated+finish", "adv:length-prefix", "adv:stop-response", "adv:abrupt-close-with-inflight", "adv:stream-flood"],
     })
 }
